@@ -1044,9 +1044,7 @@ def mi_loss(
         num_samples = min(max(1, int(sample_ratio * target.shape[2:].numel())), num_samples)
     if num_samples is not None:
         input, target = rand_sample([input, target], num_samples, mask=mask, replacement=True)
-    elif mask is not None:
-        input = input.mul(mask)
-        target = target.mul(mask)
+        mask = None
 
     # set the bin edges and Gaussian kernel std
     bin_width = (vmax - vmin) / num_bins  # FWHM is one bin width
@@ -1062,6 +1060,8 @@ def mi_loss(
 
     pw_input = parzen_window_fn(input)  # (N, #bins, H*W*D)
     pw_target = parzen_window_fn(target)
+    if mask is not None:
+        pw_input = pw_input.mul(mask)  # weight of each sample in joint histogram
 
     # calculate joint histogram
     hist_joint = pw_input.bmm(pw_target.transpose(1, 2))  # (N, #bins, #bins)
